@@ -340,7 +340,7 @@ func vfRouteBFS(t *testing.T, pool *vrt.Pool, sc *vfRouteScenario, maxDepth int,
 			return nil, false
 		}
 		for _, v := range out.Violations {
-			if props[v.Property] {
+			if props[v.Property] && (vfOnlySigs == nil || vfOnlySigs[v.Signature]) {
 				res.Violate(v.Signature, fmt.Sprintf("scenario %s, actions %v: %s\ntrace:\n  %s", sc.Name, path, v.Detail, strings.Join(out.Events, "\n  ")),
 					map[string]any{"scenario": sc, "path": path, "closing": closing})
 			}
@@ -483,6 +483,9 @@ func vfScenarios(tier string, faults bool) []*vfRouteScenario {
 	return out
 }
 
+// vfOnlySigs, when set, restricts what a check reports to these signatures of its property.
+var vfOnlySigs map[string]bool
+
 func vfRouteDepth(tier string) int {
 	d := 60 // scenarios are finite: the search normally ends with an empty frontier
 	_ = tier
@@ -565,7 +568,7 @@ func vfRouteReplay(t *testing.T, path string, props map[string]bool, res *vrt.Re
 	}
 	out := vfRunRoute(t, &vfRouteJob{Scenario: rp.Scenario, Path: rp.Path, Closing: rp.Closing, Trace: true})
 	for _, v := range out.Violations {
-		if props[v.Property] {
+		if props[v.Property] && (vfOnlySigs == nil || vfOnlySigs[v.Signature]) {
 			res.Violate(v.Signature, v.Detail+"\ntrace:\n  "+strings.Join(out.Events, "\n  "), rp)
 		}
 	}
